@@ -68,10 +68,12 @@ def build_pixel(kind, positions, params):
     return cls(positions, **params)
 
 
-def build_sky(kind, skycoord, params, scale_arcsec, theta_offset=0.0):
+def build_sky(kind, skycoord, params, scale_arcsec, theta_offset=0.0, rng=None, labels=None):
     """Sky aperture whose to_pixel image has (about) the pixel parameters
-    `params`: lengths are multiplied by the pixel scale, theta is shifted."""
+    `params`: lengths are multiplied by the pixel scale, theta is shifted.
+    With `rng`, every angular quantity is expressed in a randomly chosen equivalent unit."""
     import astropy.units as u
+    from astropy.coordinates import Angle
     from photutils import aperture as A
     cls = {'circle': A.SkyCircularAperture, 'circ_annulus': A.SkyCircularAnnulus,
            'ellipse': A.SkyEllipticalAperture, 'ell_annulus': A.SkyEllipticalAnnulus,
@@ -79,9 +81,20 @@ def build_sky(kind, skycoord, params, scale_arcsec, theta_offset=0.0):
     p = {}
     for k, v in params.items():
         if k == 'theta':
-            p[k] = (v - theta_offset) * u.rad
+            q = (v - theta_offset) * u.rad
+            if rng is not None and rng.random() < 0.6:
+                unit = str(rng.choice(['deg', 'arcmin', 'Angle_deg']))
+                q = Angle(q.to(u.deg)) if unit == 'Angle_deg' else q.to(u.Unit(unit))
+                if labels is not None:
+                    labels[k] = unit
         else:
-            p[k] = (v * scale_arcsec) * u.arcsec
+            q = (v * scale_arcsec) * u.arcsec
+            if rng is not None and rng.random() < 0.5:
+                unit = str(rng.choice(['arcmin', 'deg', 'mas', 'rad']))
+                q = q.to(u.Unit(unit))
+                if labels is not None:
+                    labels[k] = unit
+        p[k] = q
     return cls(skycoord, **p)
 
 
@@ -248,3 +261,139 @@ def gen_wcs(rng, shape):
     w.wcs.pc = [[np.cos(th), -np.sin(th)], [np.sin(th), np.cos(th)]]
     w.wcs.set()
     return w, scale
+
+
+# ----------------------------------------------------------------------
+# generic axes (drawn independently of the generator class)
+# ----------------------------------------------------------------------
+def gen_magnitude(rng, plain=0.5):
+    """(factor, label): overall scale of a value-like input. Half of the draws are plain (1.0); the rest are
+    powers of two 2**-60..2**40 or decimal 1e-20..1e10 (exact decades and in-between values)."""
+    r = rng.random()
+    if r < plain:
+        return 1.0, 'plain'
+    if r < plain + (1 - plain) * 0.45:
+        return float(2.0 ** int(rng.integers(-60, 41))), 'pow2'
+    if rng.random() < 0.5:
+        return float(10.0 ** int(rng.integers(-20, 11))), 'decade'
+    return float(10.0 ** rng.uniform(-20, 10)), 'decimal'
+
+
+def gen_elongated_shape(rng):
+    """strongly non-square frames (nx >= ny + 2 or the reverse), incl. 1xN / Nx1"""
+    a, b = int(rng.integers(1, 6)), int(rng.integers(20, 61))
+    return (a, b) if rng.random() < 0.5 else (b, a)
+
+
+THETA_FORMS = ['float', 'np.float64', 'np.float32', 'int', 'Quantity_rad', 'Quantity_deg', 'Quantity_arcmin',
+               'Angle_deg', 'Angle_hourangle']
+
+
+def theta_form(rng, theta_rad):
+    """Return (constructor value, label, radians the value denotes exactly as a float).
+    A float-like value is radians (documented); Quantities / Angles carry their unit."""
+    import astropy.units as u
+    from astropy.coordinates import Angle
+    f = str(rng.choice(THETA_FORMS))
+    if f == 'float':
+        return float(theta_rad), f, float(theta_rad)
+    if f == 'np.float64':
+        return np.float64(theta_rad), f, float(theta_rad)
+    if f == 'np.float32':
+        v = np.float32(theta_rad)
+        return v, f, float(v)
+    if f == 'int':
+        v = int(round(theta_rad))
+        return v, f, float(v)
+    if f == 'Quantity_rad':
+        return theta_rad * u.rad, f, float(theta_rad)
+    if f == 'Quantity_deg':
+        d = float(np.degrees(theta_rad)) if rng.random() < 0.5 else float(rng.choice([35.0, -120.0, 90.0, 10.0, 200.0]))
+        return d * u.deg, f, float(np.radians(d))
+    if f == 'Quantity_arcmin':
+        d = float(np.degrees(theta_rad)) * 60.0
+        return d * u.arcmin, f, float(np.radians(d / 60.0))
+    if f == 'Angle_deg':
+        d = float(np.degrees(theta_rad))
+        return Angle(d, 'deg'), f, float(np.radians(d))
+    h = float(np.degrees(theta_rad)) / 15.0
+    return Angle(h, 'hourangle'), 'Angle_hourangle', float(np.radians(h * 15.0))
+
+
+def size_form(rng, v):
+    """Return (constructor value, label, float value it denotes). Sizes are documented as `float`."""
+    f = str(rng.choice(['float', 'float', 'np.float64', 'np.float32', 'int']))
+    if f == 'np.float64':
+        return np.float64(v), f, float(v)
+    if f == 'np.float32':
+        x = np.float32(v)
+        return x, f, float(x)
+    if f == 'int' and v >= 1.5:
+        x = int(round(v))
+        return x, f, float(x)
+    return float(v), 'float', float(v)
+
+
+def apply_forms(rng, kind, params):
+    """Draw a call form for every shape parameter. Returns (constructor params, canonical float params
+    (theta in radians), labels). Ordering constraints of annuli (inner < outer) are preserved by giving the
+    'int' / float32 forms only to the outermost length of an annulus."""
+    ctor, canon, labels = {}, {}, {}
+    outer_only = {'circ_annulus': ('r_out',), 'ell_annulus': ('a_out',), 'rect_annulus': ('w_out',)}.get(kind)
+    for k, v in params.items():
+        if k == 'theta':
+            c, lab, x = theta_form(rng, v)
+        elif outer_only is not None and k not in outer_only:
+            c, lab, x = float(v), 'float', float(v)
+        else:
+            c, lab, x = size_form(rng, v)
+            if outer_only is not None and x <= max(params[q] for q in params if q.endswith('_in') and q[0] == k[0]):
+                c, lab, x = float(v), 'float', float(v)
+        ctor[k], canon[k], labels[k] = c, x, lab
+    return ctor, canon, labels
+
+
+def positions_form(rng, positions, scalar):
+    """Equivalent containers for the positions argument."""
+    f = str(rng.choice(['as_is', 'ndarray', 'list_of_lists', 'tuple_of_tuples', 'list_of_arrays']))
+    if f == 'as_is':
+        return positions, f
+    arr = np.asarray(positions, dtype=float)
+    if f == 'ndarray':
+        return arr.copy(), f
+    if scalar:
+        return ([float(arr[0]), float(arr[1])] if f != 'tuple_of_tuples' else (float(arr[0]), float(arr[1]))), f
+    if f == 'list_of_lists':
+        return [[float(x), float(y)] for x, y in arr], f
+    if f == 'tuple_of_tuples':
+        return tuple((float(x), float(y)) for x, y in arr), f
+    return [np.array([x, y]) for x, y in arr], f
+
+
+LAYOUTS = ['C', 'C', 'C', 'F', 'strided', 'offset_view', 'transposed_view', 'negative_stride', 'big_endian']
+
+
+def relayout(arr, code):
+    """A new array with the same values (and native semantics) in another memory layout."""
+    if arr is None:
+        return None
+    a = np.asarray(arr)
+    if code == 'F':
+        return np.asfortranarray(a.copy())
+    if code == 'strided':
+        big = np.zeros((a.shape[0] * 2 + 1, a.shape[1] * 3 + 2), dtype=a.dtype)
+        v = big[1::2, 2::3][:a.shape[0], :a.shape[1]]
+        v[...] = a
+        return v
+    if code == 'offset_view':
+        big = np.full((a.shape[0] + 5, a.shape[1] + 4), 7, dtype=a.dtype)
+        v = big[3:3 + a.shape[0], 2:2 + a.shape[1]]
+        v[...] = a
+        return v
+    if code == 'transposed_view':
+        return np.ascontiguousarray(a.T).T
+    if code == 'negative_stride':
+        return np.ascontiguousarray(a[::-1, ::-1])[::-1, ::-1]
+    if code == 'big_endian' and a.dtype.kind in 'fiu' and a.dtype.itemsize > 1:
+        return a.astype(a.dtype.newbyteorder('>'))
+    return a.copy()
